@@ -221,17 +221,20 @@ fn byte_size(rng: &mut Rng, thorough: bool) -> usize {
     if rng.chance(1, 2) { *rng.pick(&BYTE_SIZES) } else { rng.below(65537) as usize }
 }
 
+/// The Lean model decodes and encodes big-endian integers in quadratic time (≈ 3 s for a 64 KiB
+/// operand, ≈ 50 ms for 8 KiB), so large integer operands are rationed: quick ≤ 2048 bytes with 1 in 25
+/// at 4096 / 8192; thorough additionally 1 in 10 up to 16 KiB and 1 in 250 at 64 KiB.
 fn int_size(rng: &mut Rng, thorough: bool) -> usize {
     if thorough {
-        if rng.chance(1, 60) {
-            return 262144;
+        if rng.chance(1, 250) {
+            return 65536;
         }
         if rng.chance(1, 10) {
-            return rng.below(65537) as usize;
+            return rng.below(16385) as usize;
         }
     }
     if rng.chance(1, 25) {
-        return *rng.pick(&[16384usize, 65536]);
+        return *rng.pick(&[4096usize, 8192]);
     }
     if rng.chance(1, 2) { *rng.pick(&INT_SIZES) } else { rng.below(2049) as usize }
 }
@@ -787,6 +790,21 @@ fn generate_costs_unknown(rng: &mut Rng, n: usize, tier: &str) -> Vec<String> {
             }
         }
     }
+    // finding B in protocol form (old model: wrapping_mul): 20 / 24 arguments aliasing one 64 KiB atom
+    // under the mul-like cost function make base ≥ 2^32; the multiplier is the one whose true product
+    // is ≥ 2^64 and wraps to a value ≤ 2^32−1 (the crate answers `ok`, the new model CostExceeded)
+    for k in [20usize, 24] {
+        if let Ok(base) = rule_walk(2, false, u128::MAX, &vec![Some(65536); k])
+            && let Some(m) = find_wrap_multiplier(base)
+        {
+            let mut op = mult_bytes(m);
+            op.push(0x80);
+            let items = vec!["~0+65536".to_string(); k].join(",");
+            for flags in [0u32, 0x2000] {
+                push(&op, flags, 1 << 62, &items);
+            }
+        }
+    }
     for _ in 0..n {
         // a small per-case pool of items: arguments frequently repeat the same item
         let k = rng.range(1, 4) as usize;
@@ -995,17 +1013,44 @@ fn oracle_unknown_rule(rng: &mut Rng, n: usize, tier: &str) -> OracleReport {
         let list = list_of(&mut a, &ns);
         check_unknown(&mut rep, &mut a, &s.op, s.flags, s.budget, list, &shape_sizes(&s.args, &sub_sizes));
     }
+
+    // 4. finding B (old cost model: base × (multiplier+1) is computed with wrapping_mul), light form,
+    //    both tiers: many arguments aliasing the ONE 64 KiB atom of the pool make base ≥ 2^32; a
+    //    multiplier whose true product is ≥ 2^64 and wraps to a value ≤ 2^32−1 is found by search.
+    {
+        let big = BYTE_SIZES.iter().position(|s| *s == 65536).unwrap();
+        let mut found = 0;
+        for (cf, k) in [(2u8, 17usize), (2, 20), (2, 24), (2, 32), (2, 48), (2, 100), (3, 22000), (3, 30011), (1, 22000), (1, 40009)] {
+            if found >= 4 && cf == 2 {
+                continue;
+            }
+            let sz = vec![Some(sizes[big]); k];
+            let Ok(base) = rule_walk(cf, false, u128::MAX, &sz) else { continue };
+            let Some(m) = find_wrap_multiplier(base) else {
+                rep.hit("wrap-search-no-multiplier");
+                continue;
+            };
+            found += 1;
+            rep.hit("wrap-search-found");
+            let l = list_of(&mut a, &vec![nodes[big]; k]);
+            let mut op = mult_bytes(m);
+            op.push(cf << 6);
+            for flags in [0u32, 0x2000] {
+                check_unknown(&mut rep, &mut a, &op, flags, 1 << 62, l, &sz);
+            }
+        }
+    }
     drop(a);
 
-    // 4. finding B: opcode 3fffffffc0 (concat-like, multiplier 0x3fffffff) with 85 arguments aliasing
-    //    ONE 64 MiB atom + one atom of 22,365,704 bytes: base = 2^34, product = 2^64, wraps to 0.
-    //    Measured: the whole block (allocating ~86 MB, both models) takes ≈ 0.1 s, so it runs in both tiers.
-    {
+    // 5. finding B, the original reproduction: opcode 3fffffffc0 (concat-like, multiplier 0x3fffffff)
+    //    with 85 arguments aliasing ONE 64 MiB atom + one atom of 22,365,704 bytes: base = 2^34,
+    //    product = 2^64, wraps to 0.  op_unknown itself is instantaneous (atom_len is O(1)), but
+    //    allocating the ~86 MB takes 2.0–2.8 s in the sandbox this was measured in (first-touch page
+    //    faults, ≈ 14 ms per MiB; VERIF_COSTS_TIMING=1 prints the time), i.e. more than the 1.5 s
+    //    allowed for the quick tier: thorough only.
+    if thorough {
         let t0 = std::time::Instant::now();
         let timing = std::env::var("VERIF_COSTS_TIMING").is_ok();
-        if timing {
-            eprintln!("unknown_rule: sections 1-3 done");
-        }
         let mut b = Allocator::new();
         let x = b.new_atom(&vec![0u8; 1 << 26]).unwrap();
         let y = b.new_atom(&vec![0u8; 22_365_704]).unwrap();
@@ -1021,7 +1066,7 @@ fn oracle_unknown_rule(rng: &mut Rng, n: usize, tier: &str) -> OracleReport {
         if timing {
             eprintln!("unknown_rule: finding-B reproduction (allocation + both models) took {:?}", t0.elapsed());
         }
-        if thorough {
+        {
             // more wrap-arounds of the same kind: other multipliers on the same arguments …
             for op in [[0x7fu8, 0xff, 0xff, 0xff, 0xc0], [0xbf, 0xff, 0xff, 0xff, 0xc0]] {
                 for flags in [0u32, 0x2000] {
@@ -1049,6 +1094,9 @@ fn oracle_unknown_rule(rng: &mut Rng, n: usize, tier: &str) -> OracleReport {
             }
             for _ in 0..found {
                 rep.hit("wrap-search-found");
+            }
+            if timing {
+                eprintln!("unknown_rule: all 64 MiB cases took {:?}", t0.elapsed());
             }
         }
     }
